@@ -54,6 +54,14 @@ impl RunOut {
             detail,
         });
     }
+    /// Copy of what a replay file needs (scenario, log hash).
+    pub fn clone_light(&self) -> RunOut {
+        let mut o = RunOut::default();
+        o.scenario = self.scenario.clone();
+        o.log_hash = self.log_hash;
+        o
+    }
+
     /// Digest of everything observable about the run (determinism self-test).
     pub fn digest(&self) -> u64 {
         let mut h = fnv(self.log_hash ^ 0x5bd1e995, &self.shape.to_le_bytes());
